@@ -314,9 +314,12 @@ pub fn ln_pflips<R: Rng>(
         })
         .collect();
 
+    // the rounded running total need not be exactly one: scale the variate by it, as `pflips` does
+    let total: f64 = cws.last().copied().unwrap_or(1.0);
+
     (0..n)
         .map(|_| {
-            let r = rng.sample(Open01);
+            let r = rng.sample::<f64, _>(Open01) * total;
             match catflip(&cws, r) {
                 Some(ix) => ix,
                 None => {
